@@ -152,7 +152,8 @@ def run_ort(model: onnx.ModelProto, feeds: dict):
     so.graph_optimization_level = o.GraphOptimizationLevel.ORT_DISABLE_ALL
     so.log_severity_level = 4
     sess = o.InferenceSession(model.SerializeToString(), so, providers=["CPUExecutionProvider"])
-    names = {i.name for i in sess.get_inputs()}
+    # graph inputs that have an initializer (overridable defaults) are listed separately by onnxruntime
+    names = {i.name for i in sess.get_inputs()} | {i.name for i in sess.get_overridable_initializers()}
     ro = o.RunOptions()
     ro.log_severity_level = 4
     return [sess.run(None, {k: v for k, v in f.items() if k in names}, ro) for f in feeds]
@@ -192,7 +193,8 @@ def oracle(before: onnx.ModelProto, after: onnx.ModelProto, feeds: list, exact: 
 
     onnxruntime (optimisations off) first; when it cannot run the *original*, `onnx.reference` is used for
     both sides (e.g. auto_pad SAME_* with dilations)."""
-    runners = [("ort", run_ort), ("ref", run_ref)] if prefer == "ort" else [("ref", run_ref), ("ort", run_ort)]
+    runners = {"ort": [("ort", run_ort), ("ref", run_ref)], "ref": [("ref", run_ref), ("ort", run_ort)],
+               "ort_only": [("ort", run_ort)]}[prefer]
     last = ""
     for name, fn in runners:
         try:
